@@ -74,6 +74,7 @@ def dispatch (line : String) : String :=
   | "e2edelay" :: rest => (Driver.E2E.handleE2EDelay rest).getD "BAD-CASE\t0"
   | "apprec" :: rest => (Driver.E2EApp.handleAppRec rest).getD "BAD-CASE\t0"
   | "apptime" :: rest => (Driver.E2EApp.handleAppTime rest).getD "BAD-CASE\t0"
+  | "appdelay" :: rest => (Driver.E2EApp.handleAppDelay rest).getD "BAD-CASE\t0"
   | "limrt" :: rest => (handleLimRT rest).getD "BAD-CASE\t0"
   | "engine" :: rest => (handleEngine rest).getD "BAD-CASE\t0"
   | "exitdelay" :: rest => (handleExitDelay rest).getD "BAD-CASE\t0"
